@@ -7,7 +7,8 @@ patch="$1"; shift
 S=$(mktemp -d /tmp/seedrepo-XXXXXX) || exit 2
 trap 'rm -rf "$S"' EXIT
 rsync -a --exclude /.git /repo/ "$S/repo/" || exit 2
-(cd "$S/repo" && git init -q . 2>/dev/null && git apply "$patch") || { echo "patch does not apply"; exit 2; }
+# (a later fix: commit may have moved the context of an old patch: fall back to patch(1) with fuzz)
+(cd "$S/repo" && git init -q . 2>/dev/null && git apply "$patch" 2>/dev/null) || (cd "$S/repo" && patch -p1 -F3 --no-backup-if-mismatch < "$patch" > /dev/null 2>&1 && echo "(applied with fuzz)") || { echo "patch does not apply"; exit 2; }
 rm -rf "$S/repo/.git"
 cd /verif
 for id in "$@"; do
